@@ -46,19 +46,6 @@ func c03Alphabet(n int) []s2.Point {
 	return lattice.Dedup(pts)
 }
 
-// crossInt maps s2.Crossing to the reference convention (-1 DoNotCross, 0 MaybeCross, +1 Cross).
-func crossInt(x s2.Crossing) int {
-	switch x {
-	case s2.Cross:
-		return refmodel.Cross
-	case s2.MaybeCross:
-		return refmodel.MaybeCross
-	}
-	return refmodel.DoNotCross
-}
-
-func antipodal(a, b s2.Point) bool { return a.X == -b.X && a.Y == -b.Y && a.Z == -b.Z }
-
 func runC03(c *core.Ctx) {
 	c.Rule = "(a) every ordered quadruple over an alphabet of exactly collinear, vertex-sharing, 1-ulp-neighbour and same-direction points (edges with exactly antipodal endpoints excluded): CrossingSign / VertexCrossing / EdgeOrVertexCrossing against the exact four-orientation criterion, all reversal and swap variants; (b) for every edge AB over a sub-alphabet a breadth-first search over the EdgeCrosser state (c, acb) read through a hook, alphabet = RestartAt, ChainCrossingSign, EdgeOrVertexChainCrossing, CrossingSign, EdgeOrVertexCrossing with every argument; plus every call sequence of length <= 3 without state merging; non-trivial = quadruples that share a vertex or contain an exactly collinear triple; states = distinct (AB, c, acb)"
 	c.Assume = []string{
@@ -354,12 +341,4 @@ func c03Crosser(c *core.Ctx, all []s2.Point) {
 		c.Count("crosser/unmerged_sequences_len<=3", seqs)
 	})
 	c.Sample(map[string]any{"sub": "crosser-bfs", "a": ptStr(pts[0]), "b": ptStr(pts[2]), "example_history": []string{ops[0].String(), ops[4].String(), ops[len(ops)-1].String()}})
-}
-
-func ptsStr(p []s2.Point) []string {
-	var s []string
-	for _, x := range p {
-		s = append(s, ptStr(x))
-	}
-	return s
 }
